@@ -37,7 +37,7 @@ def main():
                                capture_output=True, text=True)
             viol = [l for l in q.stdout.splitlines() if l.startswith(("VIOLATION", "DETAIL"))]
             print("%s %s: %s (exit %d)" % (os.path.basename(os.path.dirname(patch)) or patch, pid, "DETECTED" if q.returncode != 0 and viol else "missed", q.returncode))
-            for l in viol[:6]: print("    " + l[:300])
+            for l in viol[:40]: print("    " + l[:300])
             if q.returncode == 0: rc = 1
     finally:
         if not keep:
